@@ -133,8 +133,14 @@ class Workers(object):
         if out is None:
             out = worker_outcome(self.script, fn, payload, idx)
         req["outcome"] = out
+        # (fault accounting for the evidence: what the external peers did that a well-behaved worker would not)
         if out["kind"] == "noreply":
+            sim.count("worker-no-reply")
             return
+        if out["kind"] in ("error", "garbage"):
+            sim.count("worker-%s-reply" % out["kind"])
+        if out.get("dup"):
+            sim.count("worker-duplicate-reply")
         n = 2 if out.get("dup") else 1
         self.outstanding[req["cid"]] = self.outstanding.get(req["cid"], 0) + n
         for i in range(n):
